@@ -1,4 +1,7 @@
 import Rustemo.Proofs.TableComplete
+import Rustemo.Proofs.TableSafe4
+import Rustemo.Proofs.TableFuel
+import Rustemo.Proofs.TableRN
 import Rustemo.Proofs.TLR
 import Rustemo.Props.Example
 /-!
@@ -18,6 +21,24 @@ certificate run on the individual table is needed any more for tables of the mod
 namespace Rustemo.Props.C04Construction
 open Rustemo Rustemo.Table
 
+/-- **The construction never panics** (a): for every well-formed grammar, all settings (three table types,
+    both algorithms) and every fuel, no `unwrap` / index / `assert!` / checked arithmetic of `LRTable::new`
+    is reached — `first_sets[..]`, `nonterminals[..]`, `assert_eq!(prods.len(), 1)`, `state.actions[..]`,
+    `state.gotos[..]`, the `unwrap()` of `merge_state`, `target_item.position - 1` and `self.states[..]`
+    of `propagate_follows`, `terminals[..]`, the `u32` sort key of `sort_terminals`, and the three sites of
+    the conflict resolution (`assert!(shifts.len() <= 1)`, `max_prior_for_term[..]`, `panic!`).  The
+    outcome is a table, the diagnostic "First set empty" (`.err`), or `.fuel`. -/
+theorem construction_no_panic (g : Grammar) (hg : gwf g = true) (s : Settings) (fuel : Nat) (site : String) :
+    build g s fuel ≠ .panic site :=
+  build_no_panic hg s fuel site
+
+/-- **Fuel only bounds the loops** (a): a result other than `.fuel` is the result for every larger fuel
+    (any grammar). `.fuel` itself means one of the five loops (`while additions`, closure `loop`, state
+    queue, `while changed`, and the closure refreshes inside it) took more rounds than `fuel`. -/
+theorem construction_fuel_monotone (g : Grammar) (s : Settings) (n m : Nat) (hle : n ≤ m)
+    (h : build g s n ≠ .fuel) : build g s m = build g s n :=
+  build_mono g s hle h
+
 /-- **construction_structural** (LALR, LALR_PAGER; both algorithms; any settings, priorities,
     associativities; Layout rule or not).  A table returned by the construction passes the structural
     certificate over all its automata — the hypothesis of C02 (`C02_tree_is_derivation`), C13, C14, C15
@@ -31,6 +52,21 @@ theorem construction_structural (g : Grammar) (hg : gwf g = true) (s : Settings)
 theorem construction_structural_prop (g : Grammar) (hg : gwf g = true) (s : Settings) (fuel : Nat) (t : Table)
     (h : build g s fuel = .ok t) (htt : s.tableType ≠ "LALR_RN") : Structural g t (autosOf g t) :=
   Cert.structural_sound g t _ (build_structural hg h htt)
+
+/-- **construction_structural, right-nulled form** (all three table types, in particular LALR_RN): the
+    structural certificate with the reduce clause of `Cert.glr` — `Reduce(p, len)` needs the item
+    `(p, len)`, `len ≤ |rhs p|`, and every symbol of `rhs p` from `len` on nullable — holds, with the
+    nullable symbols read off rustemo's own FIRST sets (`rnNul`: EMPTY is a member); and every such symbol
+    does derive the empty string, so the proposition `StructuralRN` that the GLR soundness / no-panic
+    theorems (C03, C15) use holds of every table of the model construction. -/
+theorem construction_structural_rn (g : Grammar) (hg : gwf g = true) (s : Settings) (fuel : Nat) (t : Table)
+    (h : build g s fuel = .ok t) :
+    Cert.structuralRN g t (autosOf g t) (rnNul g t.firsts) = true ∧ (∀ X ∈ rnNul g t.firsts, Nullable g X) ∧
+      StructuralRN g t (autosOf g t) := by
+  have hG := GW.of_gwf hg
+  obtain ⟨_, _, hF⟩ := built_final hG (build_ok h)
+  obtain ⟨fuel0, hfs⟩ := hF.first
+  exact ⟨build_structuralRN hg h, rnNul_nullable hG hfs, build_structuralRN_prop hg h⟩
 
 /-- ACCEPT only ever sits in the STOP column (all three table types) -/
 theorem construction_accept_on_stop (g : Grammar) (hg : gwf g = true) (s : Settings) (fuel : Nat) (t : Table)
@@ -97,5 +133,10 @@ example : okAnd (build gT lalr 20) (fun t => skeleton t == skeleton Example.t) =
     returns a table, and no cell of it ever had two candidates -/
 example : gwf gT = true ∧ gT.auglIdx = none ∧ lalr.tableType ≠ "LALR_RN" ∧
     okAnd (build gT lalr 20) (fun t => t.rawDeterministic gT) = true := by decide +kernel
+
+/-- the right-nulled table of the same grammar has a right-nulled entry (`S: 'a' . S` reduces with length
+    1 on STOP) and the construction returns it with the same fuel -/
+example : okAnd (build gT { tableType := "LALR_RN", glr := true } 20)
+    (fun t => (t.cell 1 0).contains (Action.reduce 1 1) && t.rnLens == some #[0, 1, 0]) = true := by decide +kernel
 
 end Rustemo.Props.C04Construction
